@@ -86,6 +86,7 @@ def check(prog: Program, run: Run) -> None:
     _siblings(prog, run)
     _single_writer(prog, run)
     _emplace_paths(prog, run)
+    _emplace_alignment(prog, run)
     _backend(prog, run)
     _strings(prog, run)
     _terminator_width(prog, run)
@@ -844,6 +845,52 @@ def _single_writer(prog: Program, run: Run) -> None:
         run.violation(R, "EncodeState.emplace_bytes", "growth",
                       "when the PDU has to grow it is not extended by zero bytes marked unused",
                       f.loc)
+
+
+def _emplace_alignment(prog: Program, run: Run, R: str = "C02.R3") -> None:
+    """EncodeState.emplace_bytes insists on cursor_bit_position == 0 (it reports a RuntimeError
+    otherwise). Every caller that moves the bit cursor to a parameter's BIT-POSITION must
+    therefore reset it before the call: on no path may an assignment of a possibly non-zero bit
+    position reach an emplace_bytes call without passing a reset to 0."""
+    n = 0
+    for f in prog.iter_functions():
+        calls = [x for x in walk_no_nested(f.node) if isinstance(x, ast.Call) and
+                 call_name(x) == "emplace_bytes"]
+        if not calls or f.name == "emplace_bytes":
+            continue
+        sets = [x for x in walk_no_nested(f.node) if isinstance(x, ast.Assign) and any(
+            isinstance(t, ast.Attribute) and t.attr == "cursor_bit_position" for t in x.targets)]
+        if not sets:
+            continue
+        cfg = CFG(f.node)
+        zero = [cfg.node_of(x) for x in sets if isinstance(x.value, ast.Constant) and
+                x.value.value == 0]
+        nonzero = [x for x in sets if not (isinstance(x.value, ast.Constant) and
+                                           x.value.value == 0)]
+        for c in calls:
+            st = None
+            for s_ in walk_no_nested(f.node):
+                if isinstance(s_, ast.stmt) and not isinstance(
+                        s_, (ast.If, ast.For, ast.While, ast.Try, ast.With)) and any(
+                            z is c for z in ast.walk(s_)):
+                    st = s_
+            if st is None:
+                continue
+            cn = cfg.node_of(st)
+            n += 1
+            bad = [d for d in nonzero if cn in cfg.reachable(cfg.node_of(d), blocked=zero)]
+            if bad:
+                run.violation(R, f.qual, "emplace-bytes-misaligned",
+                              f"`{stmt_key(bad[0])}` reaches `{stmt_key(st)[:60]}` without the "
+                              "bit cursor being reset to 0: for a parameter with a non-zero "
+                              "BIT-POSITION emplace_bytes reports a RuntimeError instead of "
+                              "encoding the message", f"{f.module.rel}:{st.lineno}",
+                              stmt_key(st))
+            else:
+                run.ok(R, f.qual, "emplace_bytes is reached with the bit cursor reset to 0",
+                       f"{f.module.rel}:{st.lineno}")
+    if n < 2:
+        raise AnalysisError("emplace_bytes callers that position the bit cursor not found")
 
 
 def _emplace_paths(prog: Program, run: Run, R: str = "C02.R3") -> None:
